@@ -3,11 +3,13 @@ pub mod codp;
 pub mod credp;
 pub mod encp;
 pub mod grpp;
+pub mod journp;
 pub mod offp;
 pub mod permp;
 pub mod plogp;
 pub mod selp;
 pub mod plogp2;
+pub mod schedp;
 
 use crate::run::{Job, JobResult, PropMeta, Violation};
 use serde_json::Value;
@@ -24,6 +26,8 @@ pub fn plan(prop: &str, tier: &str) -> Option<(PropMeta, Vec<Job>)> {
         "C17" => Some(selp::plan(tier)),
         "C09" => Some(permp::plan(tier)),
         "C13" => Some(codp::plan(tier)),
+        "C11" => Some(journp::plan(tier)),
+        "C12" => Some(schedp::plan_c12(tier)),
         _ => None,
     }
 }
@@ -40,6 +44,8 @@ pub fn run_job(job: &Job) -> JobResult {
         "C17" => selp::run_job(job),
         "C09" => permp::run_job(job),
         "C13" => codp::run_job(job),
+        "C11" => journp::run_job(job),
+        "C12" => schedp::run_job(job),
         p => JobResult { machinery_error: Some(format!("unknown property {p}")), ..Default::default() },
     }
 }
@@ -53,6 +59,7 @@ pub fn replay(prop: &str, replay: &Value) -> Vec<Violation> {
         Some("off") => offp::replay(replay),
         Some("grp") => grpp::replay(replay),
         Some("sel") => selp::replay(replay),
+        Some("sched") => schedp::replay(replay),
         _ => Vec::new(),
     }
 }
